@@ -203,6 +203,7 @@ type sideMon struct {
 	ackPktSeq int
 	hbAckSeq  int
 	hbAckSeen bool
+	dlvTotal  int // packets handed to this endpoint's transport so far
 	hbPending []hbExpect // HEARTBEATs delivered to this endpoint that it has not answered yet (C19)
 	needAckNow   bool      // the pending acknowledgement must be immediate (gap / duplicate)
 	needAckNowAt time.Duration
@@ -568,6 +569,7 @@ func (m *wireMon) withPending(X int) (int, int) {
 func (m *wireMon) onDeliver(to int, p *wirePacket, data []byte) {
 	sm := m.s[to]
 	sm.dlvInStep++
+	sm.dlvTotal++
 	m.commit(to) // the previous packet has been fully processed
 	q, err := wDecodePacket(data)
 	if err != nil {
